@@ -430,9 +430,19 @@ pub fn iter_finish_case(seed: u64, idx: u64) -> CaseOut {
     let n = rng.range(0, 12);
     let declared = if rng.chance(1, 3) { n + rng.range(1, 5) } else { n };
     let in_multi = rng.chance(1, 2);
-    let w = J::obj().with("with_finish", fin_name).with("walk", walk_name).with("items", n).with("declared_length", declared).with("in_multi", in_multi);
-    let feats = vec!["iterator-exhaustion".to_string(), fin_name.to_string(), format!("walk-{walk_name}")];
-    let mut co = CaseOut::held(fnv1a(format!("{fin}{walk}{n}{declared}{in_multi}").as_bytes()), true);
+    // a third of the loops finish the bar by hand half-way
+    let manual: Option<(u64, u64)> = (n >= 1 && rng.chance(1, 3)).then(|| (rng.range(0, n - 1), rng.below(5)));
+    let w = J::obj().with("with_finish", fin_name).with("walk", walk_name).with("items", n).with("declared_length", declared).with("in_multi", in_multi).with(
+        "finished_by_hand",
+        manual.map(|(k, m)| format!("{} after {k} items", ["finish", "finish_with_message", "abandon", "abandon_with_message", "finish_and_clear"][m as usize])),
+    );
+    let mut feats = vec!["iterator-exhaustion".to_string(), fin_name.to_string(), format!("walk-{walk_name}")];
+    if manual.is_some() {
+        feats.push("finished-by-hand".into());
+    }
+    let clock = Arc::new(AtomicU64::new(3_000_000_000));
+    crate::world::install_session(&clock);
+    let mut co = CaseOut::held(fnv1a(format!("{fin}{walk}{n}{declared}{in_multi}{manual:?}").as_bytes()), true);
     let spy = SpyTerm::new(40, 12, false);
     spy.state().snap_on_flush = false;
     let res = catch_unwind(AssertUnwindSafe(|| -> Verdict {
@@ -452,6 +462,35 @@ pub fn iter_finish_case(seed: u64, idx: u64) -> CaseOut {
         pb.set_message("run");
         let mut it = (0..n).progress_with(pb.clone());
         let mut seen = 0u64;
+        if let Some((k, m)) = manual {
+            // the caller finishes the bar by hand after k items and lets the loop run to its end: the adaptor
+            // keeps counting, but a bar that is already finished is not finished a second time
+            let mut front = true;
+            loop {
+                if seen == k {
+                    match m {
+                        0 => pb.finish(),
+                        1 => pb.finish_with_message("early"),
+                        2 => pb.abandon(),
+                        3 => pb.abandon_with_message("stop"),
+                        _ => pb.finish_and_clear(),
+                    }
+                }
+                clock.fetch_add(2_000_000, SeqCst);
+                let x = match walk {
+                    0 => it.next(),
+                    3 => {
+                        front = !front;
+                        if front { it.next_back() } else { it.next() }
+                    }
+                    _ => it.next_back(),
+                };
+                if x.is_none() {
+                    break;
+                }
+                seen += 1;
+            }
+        } else {
         match walk {
             0 => while it.next().is_some() { seen += 1 },
             1 => while it.next_back().is_some() { seen += 1 },
@@ -472,12 +511,23 @@ pub fn iter_finish_case(seed: u64, idx: u64) -> CaseOut {
                 }
             }
         }
-        let want_row = match fin {
-            0 => Some(format!("B {declared}/{declared} [run]")),
-            1 => Some(format!("B {declared}/{declared} [done]")),
-            2 => None,
-            3 => Some(format!("B {seen}/{declared} [run]")),
-            _ => Some(format!("B {seen}/{declared} [left]")),
+        }
+        let want_row = match (manual, fin) {
+            (Some((k, m)), _) => {
+                let rest = n - k;
+                match m {
+                    0 => Some(format!("B {}/{declared} [run]", declared + rest)),
+                    1 => Some(format!("B {}/{declared} [early]", declared + rest)),
+                    2 => Some(format!("B {n}/{declared} [run]")),
+                    3 => Some(format!("B {n}/{declared} [stop]")),
+                    _ => None,
+                }
+            }
+            (None, 0) => Some(format!("B {declared}/{declared} [run]")),
+            (None, 1) => Some(format!("B {declared}/{declared} [done]")),
+            (None, 2) => None,
+            (None, 3) => Some(format!("B {seen}/{declared} [run]")),
+            (None, _) => Some(format!("B {seen}/{declared} [left]")),
         };
         let rows = rows_of(&spy);
         let bar_rows: Vec<&String> = rows.iter().filter(|r| r.starts_with("B ")).collect();
@@ -496,7 +546,7 @@ pub fn iter_finish_case(seed: u64, idx: u64) -> CaseOut {
             return viol(
                 if want_row.is_none() { "cleared-bar-visible" } else { "final-frame-wrong" },
                 feats.clone(),
-                format!("iterator exhausted through {walk_name} with with_finish({fin_name}): the screen shows {bar_rows:?}, expected {want_row:?}"),
+                format!("iterator exhausted through {walk_name} with with_finish({fin_name}){}: the screen shows {bar_rows:?}, expected {want_row:?}", if manual.is_some() { " after the bar had been finished by hand" } else { "" }),
                 w.clone(),
                 replay.clone(),
             );
@@ -507,7 +557,9 @@ pub fn iter_finish_case(seed: u64, idx: u64) -> CaseOut {
         Ok(v) => co.verdict = v,
         Err(p) => co.verdict = viol("panic", feats, format!("panicked: {}", crate::world::panic_message(&p)), w, replay),
     }
+    vh::install(None);
     co.count("iterator_finishes_checked", 1);
+    co.count("loops_finished_by_hand", manual.is_some() as u64);
     co.see("iterator_finish_kinds", fin * 4 + walk);
     co
 }
